@@ -370,7 +370,7 @@ def h_pathset(params, a0, a1, a2, a3, a4, a5, a6, a7, b0, b1, b2, b3, b4, b5, b6
 
 def shards(tier, seed):
   quick = tier == 'quick'
-  b = 60 if quick else 600
+  b = 100 if quick else 600
   out = []
   rt = _KARGS('a') + _KARGS('b') + [('ln', 'int')]
   for ln in (1, 2):
